@@ -338,6 +338,97 @@ theorem inv_enter (g : Graph) (s : State) (next w : Nat) (hH : Homog g) (hI : In
   · intro i
     exact Nat.le_of_eq (nd_setNd_proj (·.bump) s next (fun d => { d with started := some w }) (fun _ => rfl) i).symm
 
+/-! ## the visible graph has the same classes, shapes and thresholds -/
+
+/-- two graphs that differ at most in their edges (and other fields the invariant does not read) -/
+structure SameStatic (g g' : Graph) : Prop where
+  len : g'.nodes.length = g.nodes.length
+  workers : g'.workers = g.workers
+  cls : ∀ i, (g'.node i).cls = (g.node i).cls
+  shape : ∀ i, (g'.node i).shape = (g.node i).shape
+  flat : ∀ i, (g'.node i).flat = (g.node i).flat
+  mct : ∀ i, (g'.node i).mct = (g.node i).mct
+  maxTries : ∀ i, (g'.node i).maxTries = (g.node i).maxTries
+
+theorem vis_node (g : Graph) (s : State) (i : Nat) :
+    ∃ su cl, (vis g s).node i = { g.node i with setup := su, cleanup := cl } := by
+  unfold vis
+  split
+  · exact ⟨_, _, rfl⟩
+  · unfold Graph.node
+    simp only [List.getD_eq_getElem?_getD, List.getElem?_map, List.getElem?_zipIdx]
+    cases h : g.nodes[i]? with
+    | none => exact ⟨[], [], rfl⟩
+    | some nd =>
+      simp only [Option.map_some, Option.getD_some, Nat.zero_add]
+      split <;> exact ⟨_, _, rfl⟩
+
+theorem sameStatic_vis (g : Graph) (s : State) : SameStatic g (vis g s) where
+  len := by unfold vis; split <;> simp
+  workers := by unfold vis; split <;> rfl
+  cls i := by obtain ⟨su, cl, h⟩ := vis_node g s i; rw [h]
+  shape i := by obtain ⟨su, cl, h⟩ := vis_node g s i; rw [h]
+  flat i := by obtain ⟨su, cl, h⟩ := vis_node g s i; rw [h]
+  mct i := by obtain ⟨su, cl, h⟩ := vis_node g s i; rw [h]
+  maxTries i := by obtain ⟨su, cl, h⟩ := vis_node g s i; rw [h]
+
+namespace SameStatic
+variable {g g' : Graph} (h : SameStatic g g')
+include h
+
+theorem classNodes_eq (c : Nat) : g'.classNodes c = g.classNodes c := by
+  unfold Graph.classNodes
+  rw [h.len]
+  apply List.filter_congr
+  intro i _
+  rw [h.cls]
+
+theorem copies_eq (n : Nat) : g'.copies n = g.copies n := by
+  unfold Graph.copies
+  rw [h.flat, h.cls, h.classNodes_eq]
+
+theorem sharedStarted_eq (s : State) (n : Nat) : sharedStarted g' s n = sharedStarted g s n := by
+  unfold sharedStarted
+  rw [h.copies_eq]
+
+theorem inScopeOf_eq (sh : Shape) (w : Nat) : inScopeOf sh g' w = inScopeOf sh g w := by
+  funext v
+  unfold inScopeOf Graph.worker
+  rw [h.workers]
+
+theorem scopedCount_eq (s : State) (n w : Nat) : scopedCount g' s n w = scopedCount g s n w := by
+  unfold scopedCount
+  rw [h.sharedStarted_eq, h.shape, h.inScopeOf_eq]
+
+theorem peakLimit_eq (s : State) (n : Nat) : peakLimit g' s n = peakLimit g s n := by
+  unfold peakLimit limit limit0 mctOf
+  simp only [h.mct, h.maxTries]
+
+theorem limit_eq (s : State) (n : Nat) : limit g' s n = limit g s n := by
+  unfold limit mctOf
+  simp only [h.mct, h.maxTries]
+
+theorem classLimit_eq (s : State) (c : Nat) : classLimit g' s c = classLimit g s c := by
+  unfold classLimit
+  rw [h.classNodes_eq]
+  congr 1
+  apply List.map_congr_left
+  intro n _
+  exact h.peakLimit_eq s n
+
+theorem inv_iff (s : State) : Inv g' s ↔ Inv g s := by
+  unfold Inv
+  simp only [h.len, h.flat, h.cls, h.scopedCount_eq, h.classLimit_eq]
+
+theorem homog_iff : Homog g' ↔ Homog g := by
+  unfold Homog
+  simp only [h.len, h.flat, h.cls, h.shape]
+
+end SameStatic
+
+theorem inv_vis (g : Graph) (s' s : State) : Inv (vis g s') s ↔ Inv g s := (sameStatic_vis g s').inv_iff s
+theorem homog_vis (g : Graph) (s' : State) : Homog (vis g s') ↔ Homog g := (sameStatic_vis g s').homog_iff
+
 /-! ## the helpers of the loop only remove marks -/
 
 theorem le_pullLocations (g : Graph) (s : State) (n : Nat) : Le s (pullLocations g s n) := by
@@ -441,14 +532,21 @@ theorem inv_afterTraverse (g : Graph) (s : State) (w next prev : Nat) (dir : Dir
             inv_le g s1 _ hI1 (Le.foldl (fun s (x : Nat × List String) => dropChild g s x.1 next w)
               (fun _ _ => Le.of_nd_eq (fun _ => rfl)) _ _)
           split
-          · exact hI2
-          · next s3 e3 hrev =>
-            exact inv_le g s3 _ (inv_reverseNode g _ next w s3 e3 hH hI2 hrev) (le_setWd _ _ _)
+          · exact inv_le g s1 _ hI1 (le_setWd _ _ _)
+          · split
+            · exact hI2
+            · next s3 e3 hrev =>
+              exact inv_le g s3 _ (inv_reverseNode g _ next w s3 e3 hH hI2 hrev) (le_setWd _ _ _)
         · simp only [hc, Bool.false_eq_true, if_false]
           split
           · exact hI1
           · next c s3 hp =>
             exact inv_le g s1 _ hI1 ((le_pickChild g s1 next w c s3 hp).trans (le_setWd _ _ _))
+
+/-- the same on the visible graph of any state -/
+theorem inv_afterTraverse_vis (g : Graph) (sv s : State) (w next prev : Nat) (dir : Dir) (hH : Homog g) (hI : Inv g s) :
+    Inv g (afterTraverse (vis g sv) s w next prev dir).1 :=
+  (inv_vis g sv _).mp (inv_afterTraverse (vis g sv) s w next prev dir ((homog_vis g sv).mpr hH) ((inv_vis g sv s).mpr hI))
 
 theorem inv_startTest (g : Graph) (s : State) (n w : Nat) (ph : Phase) (dir : Dir) (hI : Inv g s) :
     Inv g (startTest g s n w ph dir).1 := inv_le g s _ hI (le_startTest g s n w ph dir)
@@ -511,6 +609,32 @@ theorem inv_iter (g : Graph) (s : State) (w : Nat) (hH : Homog g) (hI : Inv g s)
               · exact inv_traverseNode g s w nxt _ .down hH hI
             · exact hI
 
+theorem le_reveal (g : Graph) (s : State) (f w : Nat) : Le s (reveal g s f w) := by
+  unfold reveal
+  dsimp only
+  split <;> exact Le.of_nd_eq (fun _ => rfl)
+
+/-- the lazy expansion step changes `hidden`, `incompatible` and a worker flag only -/
+theorem le_prepare (g : Graph) (s : State) (w : Nat) : Le s (prepare g s w) := by
+  unfold prepare
+  dsimp only
+  split
+  · exact Le.refl s
+  · split
+    · exact (le_setWd s w _).trans (le_reveal g _ _ w)
+    · exact le_setWd s w _
+
+/-- an iteration with the lazy expansion step: `iter` on the visible graph, which has the same classes, shapes and
+thresholds as the full one -/
+theorem inv_iterL (g : Graph) (s : State) (w : Nat) (hH : Homog g) (hI : Inv g s) : Inv g (iterL g s w).1 := by
+  unfold iterL
+  split
+  · exact (inv_vis g s _).mp (inv_iter (vis g s) s w ((homog_vis g s).mpr hH) ((inv_vis g s s).mpr hI))
+  · dsimp only
+    have hI1 := inv_le g s _ hI (le_prepare g s w)
+    exact (inv_vis g (prepare g s w) _).mp
+      (inv_iter (vis g (prepare g s w)) (prepare g s w) w ((homog_vis g _).mpr hH) ((inv_vis g _ _).mpr hI1))
+
 theorem inv_runLoop (g : Graph) (w : Nat) (hH : Homog g) (fuel : Nat) (s : State) (evs : List Event) (hI : Inv g s) :
     Inv g (runLoop g w fuel s evs).1 := by
   induction fuel generalizing s evs with
@@ -518,7 +642,7 @@ theorem inv_runLoop (g : Graph) (w : Nat) (hH : Homog g) (fuel : Nat) (s : State
   | succ fuel ih =>
     unfold runLoop
     dsimp only
-    have hI1 := inv_iter g _ w hH (inv_le g s _ hI (le_setWd s w (fun d => { d with pc := .loop })))
+    have hI1 := inv_iterL g _ w hH (inv_le g s _ hI (le_setWd s w (fun d => { d with pc := .loop })))
     split
     · next s1 e heq => rw [heq] at hI1; exact ih s1 _ hI1
     · next s1 e heq => rw [heq] at hI1; exact hI1
@@ -623,11 +747,21 @@ theorem inv_continueAfter (g : Graph) (w n : Nat) (phase : Phase) (dir : Dir) (f
       split
       · exact inv_le g s _ hI (Le.setNd _ n _ (fun _ => ⟨Or.inl rfl, Nat.le_refl _⟩))
       · exact hI
-    have hI2 := inv_afterTraverse g _ w n ((s.wd w).path.getD ((s.wd w).path.length - 2) 0) dir hH
-      (inv_le g _ _ hI1 (le_finishTraverse _ n w))
+    have hI2 : ∀ sv, Inv g (afterTraverse (vis g sv) (finishTraverse (if (phase == Phase.pre) = true then
+          s.setNd n (fun d => { d with results := d.results ++ (s.wd w).preResults.drop d.results.length })
+        else s) n w) w n ((s.wd w).path.getD ((s.wd w).path.length - 2) 0) dir).1 := fun sv =>
+      inv_afterTraverse_vis g sv _ w n _ dir hH (inv_le g _ _ hI1 (le_finishTraverse _ n w))
     split
-    · next s1 e2 what heq => rw [heq] at hI2; exact inv_le g s1 _ hI2 (le_setWd _ _ _)
-    · next s1 e2 f _ heq => rw [heq] at hI2; exact inv_runLoop g w hH fuel s1 _ hI2
+    · next s1 e2 what heq =>
+      have h3 := congrArg Prod.fst heq
+      dsimp only at h3
+      rw [← h3]
+      exact inv_le g _ _ (hI2 _) (le_setWd _ _ _)
+    · next s1 e2 f _ heq =>
+      have h3 := congrArg Prod.fst heq
+      dsimp only at h3
+      rw [← h3]
+      exact inv_runLoop g w hH fuel _ _ (hI2 _)
 
 theorem inv_resumeTest (g : Graph) (s : State) (w n : Nat) (phase : Phase) (dir : Dir) (uid : String) (tag wait : Nat)
     (out : Outcome) (fuel : Nat) (hH : Homog g) (hI : Inv g s) :
@@ -654,20 +788,20 @@ theorem inv_resume (g : Graph) (s : State) (w : Nat) (out : Outcome) (fuel : Nat
   · exact hI
   · exact hI
 
-theorem sharedStarted_initState (g : Graph) (ncls : Nat) (store : List (String × List (String × String))) (n : Nat) :
-    sharedStarted g (initState g ncls store) n = [] := by
-  have h : ∀ i, ((initState g ncls store).nd i).started = none := by
+theorem sharedStarted_initState (g : Graph) (ncls : Nat) (store : List (String × List (String × String)))
+    (hidden : List Nat) (n : Nat) : sharedStarted g (initState g ncls store hidden) n = [] := by
+  have h : ∀ i, ((initState g ncls store hidden).nd i).started = none := by
     intro i
     unfold initState State.nd
     simp only [List.getD_eq_getElem?_getD, List.getElem?_map]
     cases g.nodes[i]? <;> rfl
   unfold sharedStarted
-  have : (g.copies n).filterMap (fun i => ((initState g ncls store).nd i).started) = [] := by
+  have : (g.copies n).filterMap (fun i => ((initState g ncls store hidden).nd i).started) = [] := by
     simp [List.filterMap_eq_nil_iff, h]
   rw [this]; rfl
 
-theorem inv_initState (g : Graph) (ncls : Nat) (store : List (String × List (String × String))) :
-    Inv g (initState g ncls store) := by
+theorem inv_initState (g : Graph) (ncls : Nat) (store : List (String × List (String × String))) (hidden : List Nat) :
+    Inv g (initState g ncls store hidden) := by
   intro n _ _ w
   unfold scopedCount
   rw [sharedStarted_initState]
@@ -675,10 +809,10 @@ theorem inv_initState (g : Graph) (ncls : Nat) (store : List (String × List (St
 
 /-! ## reachability and the corollaries' vocabulary -/
 
-/-- the states the scheduler can produce: the initial state followed by any finite sequence of `resume` steps of
-any workers with any outcomes (and any fuel) -/
+/-- the states the scheduler can produce: an initial state (with any set of not yet parsed `hidden` nodes; `[]` for a
+pre-parsed graph) followed by any finite sequence of `resume` steps of any workers with any outcomes (and any fuel) -/
 inductive Reachable (g : Graph) (ncls : Nat) (store : List (String × List (String × String))) : State → Prop
-  | init : Reachable g ncls store (initState g ncls store)
+  | init (hidden : List Nat) : Reachable g ncls store (initState g ncls store hidden)
   | step (s : State) (w : Nat) (out : Outcome) (fuel : Nat) :
       Reachable g ncls store s → Reachable g ncls store (resume g s w out fuel).1
 
